@@ -10,9 +10,24 @@ The explicit `raise ValueError` guards at the head of the axis loop of `_apply_p
 extracted as an ordered table (mode, quantity, comparison, bound) -> `guards`, together with
 the loop's `n_pad_l`, `n_pad_r` and its skip condition.
 Anything else raises ExtractionError, which the check treats as a broken obligation.
+
+Graceful degradation for the two slice functions: when the AST shape of
+`_padding_slices_outer` / `_padding_slices_inner` is not recognised (a harmless refactoring:
+helper functions, dict dispatch, conditional expressions), the slice table is derived
+BEHAVIOURALLY from the live private function of the tree under test (subprocess with that tree
+on PYTHONPATH): every slice component is fitted as `a*off + b*nLarge + c*nSmall + d`, constant
+`None`, or "`None` exactly where the affine value is -1" on a small grid and then VERIFIED
+exactly on a second, larger grid (both argument orders, all modes, an unknown mode string, a
+2-d array with `axis=1`).  If the fit or the verification fails the extraction fails (closed).
+The generated file and the evidence say `source=live` and list the grids.  The guard block of
+`_apply_padding` has no such fallback.
 """
 import ast
+import itertools
+import json
 import os
+import subprocess
+import sys
 
 from vf import core
 
@@ -237,20 +252,7 @@ def _extract_guards(fdef):
     return env, guards
 
 
-def extract(repo=core.REPO):
-    path = os.path.join(repo, 'odl', 'util', 'numerics.py')
-    with open(path) as f:
-        tree = ast.parse(f.read())
-    defs = {n.name: n for n in tree.body if isinstance(n, ast.FunctionDef)}
-    consts = {}
-    for n in tree.body:
-        if isinstance(n, ast.Assign) and len(n.targets) == 1 and isinstance(n.targets[0], ast.Name):
-            consts[n.targets[0].id] = n.value
-    if '_SUPPORTED_RESIZE_PAD_MODES' not in consts:
-        raise ExtractionError('_SUPPORTED_RESIZE_PAD_MODES not found')
-    supported = list(ast.literal_eval(consts['_SUPPORTED_RESIZE_PAD_MODES']))
-
-    # --- outer
+def _ast_outer(defs):
     fo = defs.get('_padding_slices_outer')
     if fo is None or [a.arg for a in fo.args.args] != ['lhs_arr', 'rhs_arr', 'axis', 'offset']:
         raise ExtractionError('_padding_slices_outer signature changed')
@@ -263,7 +265,10 @@ def extract(repo=core.REPO):
         raise ExtractionError('_padding_slices_outer does not return a pair')
     outer = '({}, {})'.format(_slice(ret.value.elts[0], env), _slice(ret.value.elts[1], env))
 
-    # --- inner
+    return outer
+
+
+def _ast_inner(defs):
     fi = defs.get('_padding_slices_inner')
     if fi is None or [a.arg for a in fi.args.args] != ['lhs_arr', 'rhs_arr', 'axis', 'offset',
                                                        'pad_mode']:
@@ -301,6 +306,190 @@ def extract(repo=core.REPO):
     for m in arms:
         if m not in MODES:
             raise ExtractionError('unknown pad mode in the source: {!r}'.format(m))
+    return arms, default
+
+
+# ---------------------------------------------------------------------------
+# behavioural derivation of the slice tables from the live functions
+
+_PROBE = r"""
+import json, sys
+import numpy as np
+from odl.util import numerics as N
+kind, queries = json.loads(sys.stdin.read())
+out = []
+for nl, nr, off, mode in queries:
+    try:
+        lhs, rhs = np.empty((3, nl)), np.empty((2, nr))     # axis 1 is the probed axis
+        if kind == 'outer':
+            res = N._padding_slices_outer(lhs, rhs, 1, [1, off])
+        else:
+            res = N._padding_slices_inner(lhs, rhs, 1, [1, off], mode)
+        l, r = res
+        ok = all(isinstance(s, slice) and all(v is None or (isinstance(v, int) and
+                 not isinstance(v, bool)) for v in (s.start, s.stop, s.step)) for s in (l, r))
+        out.append([[l.start, l.stop, l.step], [r.start, r.stop, r.step]] if ok else 'BAD')
+    except Exception as e:
+        out.append('EXC:' + type(e).__name__)
+print(json.dumps(out))
+"""
+
+FIT_GRID = dict(off=range(0, 4), small=range(2, 6), extra=range(0, 4))
+VERIFY_GRID = dict(off=range(0, 8), small=range(0, 10), extra=range(0, 9))
+VARS = ('off', 'nLarge', 'nSmall')
+
+
+def _grid_points(g):
+    for off, small, extra in itertools.product(g['off'], g['small'], g['extra']):
+        large = small + off + extra
+        yield off, large, small
+
+
+def _probe(repo, kind, queries):
+    env = dict(os.environ, PYTHONPATH=repo, PYTHONDONTWRITEBYTECODE='1')
+    p = subprocess.run([sys.executable, '-c', _PROBE], input=json.dumps([kind, queries]),
+                       stdout=subprocess.PIPE, stderr=subprocess.PIPE, text=True, env=env,
+                       timeout=300)
+    if p.returncode != 0:
+        raise ExtractionError('live probe of _padding_slices_{} failed: {}'.format(
+            kind, p.stderr[-300:]))
+    return json.loads(p.stdout)
+
+
+def _affine_str(coef):
+    """coef = (a_off, a_large, a_small, const) -> Lean Int term."""
+    terms = []
+    for k, name in zip(coef[:3], VARS):
+        if k == 0:
+            continue
+        mag = name if abs(k) == 1 else '{} * {}'.format(abs(k), name)
+        terms.append(('-' if k < 0 else '+', mag))
+    if coef[3] != 0 or not terms:
+        terms.append(('-' if coef[3] < 0 else '+', str(abs(coef[3]))))
+    out = ('(-{})'.format(terms[0][1]) if terms[0][0] == '-' else terms[0][1])
+    for sign, mag in terms[1:]:
+        out = '{} {} {}'.format(out, sign, mag)
+    return '({})'.format(out) if (' ' in out) else out
+
+
+def _fit_component(samples):
+    """samples: list of ((off, large, small), value or None).  Returns Lean `Option Int` term."""
+    vals = [(p, v) for p, v in samples if v is not None]
+    if not vals:
+        return 'none'
+    known = dict(vals)
+    coef = None
+    for base in known:
+        pts = [tuple(base[i] + (1 if i == j else 0) for i in range(3)) for j in range(3)]
+        if all(q in known for q in pts):
+            a = [known[q] - known[base] for q in pts]
+            d = known[base] - sum(a[i] * base[i] for i in range(3))
+            coef = (a[0], a[1], a[2], d)
+            break
+    if coef is None:
+        raise ExtractionError('live fit: no affinely independent sample points')
+
+    def pred(p):
+        return coef[0] * p[0] + coef[1] * p[1] + coef[2] * p[2] + coef[3]
+    if any(pred(p) != v for p, v in vals):
+        raise ExtractionError('live fit: slice component is not affine in (off, nLarge, nSmall)')
+    nones = [p for p, v in samples if v is None]
+    if not nones:
+        return '(some {})'.format(_affine_str(coef))
+    # mixed: must be the fix-up "None exactly where the value would be -1"
+    if any(pred(p) != -1 for p in nones) or any(v == -1 for _, v in vals):
+        raise ExtractionError('live fit: None pattern of a slice bound is not `== -1 -> None`')
+    return '(noneIfMinusOne {})'.format(_affine_str(coef))
+
+
+def _live_table(repo, kind, info, why):
+    """Slice table of `_padding_slices_<kind>` from the live function; dict mode -> Lean pair
+    (key 'all' for outer)."""
+    modes = MODES + ['no-such-mode'] if kind == 'inner' else ['-']
+    pts_fit = list(_grid_points(FIT_GRID))
+    pts_ver = list(_grid_points(VERIFY_GRID))
+
+    def run(points):
+        queries, owners = [], []
+        for off, large, small in points:
+            for mode in modes:
+                for swapped in (False, True):      # the function must only use max/min
+                    nl, nr = (small, large) if swapped else (large, small)
+                    queries.append([nl, nr, off, mode])
+                    owners.append(((off, large, small), mode))
+        res = _probe(repo, kind, queries)
+        table = {}
+        for (p, mode), r in zip(owners, res):
+            if isinstance(r, str):
+                raise ExtractionError('live probe: _padding_slices_{} {} at off={} nLarge={} '
+                                      'nSmall={} mode={}'.format(kind, r, p[0], p[1], p[2], mode))
+            prev = table.setdefault((mode, p), r)
+            if prev != r:
+                raise ExtractionError('live probe: result depends on the order of the arrays')
+        return table
+    fit = run(pts_fit)
+    ver = run(pts_ver)
+    out = {}
+    for mode in modes:
+        specs = []
+        for side in (0, 1):
+            comp = []
+            for c in (0, 1):
+                term = _fit_component([(p, fit[(mode, p)][side][c]) for p in pts_fit])
+                # exact verification on the larger grid (re-fitting there must give the same
+                # term, which also checks the None pattern and the affine form everywhere)
+                term2 = _fit_component([(p, ver[(mode, p)][side][c]) for p in pts_ver])
+                if term2 != term:
+                    raise ExtractionError('live fit of _padding_slices_{} not confirmed on the '
+                                          'verification grid: {} vs {}'.format(kind, term, term2))
+                comp.append(term)
+            steps = {ver[(mode, p)][side][2] for p in pts_ver} | \
+                {fit[(mode, p)][side][2] for p in pts_fit}
+            if steps <= {None, 1}:
+                rev = 'false'
+            elif steps == {-1}:
+                rev = 'true'
+            else:
+                raise ExtractionError('live fit: slice step is not constantly 1 or -1')
+            specs.append('⟨{}, {}, {}⟩'.format(comp[0], comp[1], rev))
+        out[mode] = '({}, {})'.format(specs[0], specs[1])
+    if kind == 'inner':
+        if len({out['constant'], out.pop('no-such-mode')}) != 1:
+            raise ExtractionError('live fit: unsupported mode strings are not treated like '
+                                  "'constant'")
+    else:
+        out = {'all': out['-']}
+    info[kind] = 'live'
+    info[kind + '_why'] = why[:200]
+    info['grids'] = {'fit': {k: [v.start, v.stop] for k, v in FIT_GRID.items()},
+                     'verify': {k: [v.start, v.stop] for k, v in VERIFY_GRID.items()},
+                     'nLarge': 'nSmall + off + extra', 'both argument orders': True,
+                     'axis': '1 of a 2-d array', 'points': len(pts_fit) + len(pts_ver)}
+    return out
+
+
+def extract(repo=core.REPO):
+    path = os.path.join(repo, 'odl', 'util', 'numerics.py')
+    with open(path) as f:
+        tree = ast.parse(f.read())
+    defs = {n.name: n for n in tree.body if isinstance(n, ast.FunctionDef)}
+    consts = {}
+    for n in tree.body:
+        if isinstance(n, ast.Assign) and len(n.targets) == 1 and isinstance(n.targets[0], ast.Name):
+            consts[n.targets[0].id] = n.value
+    if '_SUPPORTED_RESIZE_PAD_MODES' not in consts:
+        raise ExtractionError('_SUPPORTED_RESIZE_PAD_MODES not found')
+    supported = list(ast.literal_eval(consts['_SUPPORTED_RESIZE_PAD_MODES']))
+
+    info = {'outer': 'ast', 'inner': 'ast'}
+    try:
+        outer = _ast_outer(defs)
+    except ExtractionError as e:
+        outer = _live_table(repo, 'outer', info, str(e))['all']
+    try:
+        arms, default = _ast_inner(defs)
+    except ExtractionError as e:
+        arms, default = _live_table(repo, 'inner', info, str(e)), None
     fa = defs.get('_apply_padding')
     if fa is None or [a.arg for a in fa.args.args] != ['lhs_arr', 'rhs_arr', 'offset', 'pad_mode',
                                                        'direction']:
@@ -320,6 +509,8 @@ def extract(repo=core.REPO):
         else:
             raise ExtractionError('no branch for mode ' + m)
     lean = '''-- GENERATED by tools/extract/padslices.py from odl/util/numerics.py — do not edit by hand.
+-- slice tables: outer source={src_outer}, inner source={src_inner} (ast = symbolic evaluation of the
+-- source text; live = fitted to and verified against the live function on a grid)
 import OdlModel.Model.ResizeBase
 namespace OdlModel.Gen.PadSlices
 open OdlModel.Resize
@@ -349,15 +540,20 @@ def guards (mode : Mode) (off nLhs nRhs : Int) : Option Err :=
 end OdlModel.Gen.PadSlices
 '''.format(supported=', '.join('"{}"'.format(s) for s in supported), outer=outer,
            arms='\n'.join(lines), npl=penv['n_pad_l'], npr=penv['n_pad_r'],
-           guards='\n'.join(glines))
-    return lean
+           guards='\n'.join(glines), src_outer=info['outer'], src_inner=info['inner'])
+    return lean, info
 
 
 def regenerate(repo=core.REPO):
-    lean = extract(repo)
-    return core.write_if_changed(
+    """Returns (changed, info); info says for each slice table whether it came from the AST or
+    from the live function (and then on which grids it was fitted and verified)."""
+    lean, info = extract(repo)
+    changed = core.write_if_changed(
         os.path.join(core.LEAN, 'OdlModel', 'Gen', 'PadSlices.lean'), lean)
+    return changed, info
 
 
 if __name__ == '__main__':
-    print(extract())
+    text, inf = extract()
+    print(text)
+    print(json.dumps(inf), file=sys.stderr)
